@@ -25,4 +25,15 @@ def splitList (s : String) (sep : String) : List String :=
 
 def joinWith (sep : String) (xs : List String) : String := sep.intercalate xs
 
+/-- result of one case: agreement of the property's projection, and the first failed predicate clause -/
+structure Verdict where
+  agree : Bool
+  implProj : String
+  modelProj : String
+  viol : Option (String × String)   -- (property, clause)
+  tags : List String
+  malformed : Bool := false
+
+def badCase : Verdict := ⟨false, "", "", none, [], true⟩
+
 end Drv
